@@ -41,7 +41,8 @@ pub const K_TIME_AT_LIMIT: u8 = 23;
 pub const K_ANNOUNCED_BAD_BODY: u8 = 24;
 pub const K_ANNOUNCED_GOOD: u8 = 25;
 pub const K_CHILD_OF_ANNOUNCED: u8 = 26;
-pub const ALL_ITEMS: [u8; 26] = [1, 21, 22, 23, 25, 24, 26, 2, 3, 4, 5, 6, 7, 8, 9, 10, 11, 12, 13, 14, 15, 16, 17, 18, 19, 20];
+pub const K_TWIN_OF_TREE_BLOCK: u8 = 27;
+pub const ALL_ITEMS: [u8; 27] = [1, 21, 22, 23, 25, 24, 26, 27, 2, 3, 4, 5, 6, 7, 8, 9, 10, 11, 12, 13, 14, 15, 16, 17, 18, 19, 20];
 
 pub fn item_name(k: u8) -> &'static str {
     match k {
@@ -71,6 +72,7 @@ pub fn item_name(k: u8) -> &'static str {
         24 => "announced header with another body (wrong merkle root)",
         25 => "valid: the block of an announced header",
         26 => "valid block whose parent is an announced header (block not yet delivered unless an earlier item is it)",
+        27 => "valid: a sibling of a tree block with the same transactions (same merkle root, other timestamp and hash)",
         _ => "?",
     }
 }
@@ -281,6 +283,21 @@ fn build_item(w: &World, k: u8, pos: usize, prev: Option<&bitcoin::Block>, resp_
                 a.block.is_some() && !w.refm.has(&a.hash) && tree.contains(&a.prev)
             })?;
             ok(good(&a.header))
+        }
+        K_TWIN_OF_TREE_BLOCK => {
+            // the same block template mined again: same parent, same transactions, one
+            // second later - a different, new and valid block
+            let h = tree.get(1).or(tree.first())?;
+            if *h == anchor {
+                return None;
+            }
+            let orig = w.blocks.get(h)?;
+            let parent = w.blocks.get(&w.refm.get(h).parent)?.header;
+            let t = orig.header.time + 1 + pos as u32 + 10 * resp_no as u32;
+            if t as u64 > w.now + 7200 {
+                return None;
+            }
+            ok(factory::regtest_block(&parent, t, orig.txdata.clone()))
         }
         K_TIME_FUTURE => {
             let p = hdr_of(&tip)?;
@@ -1015,7 +1032,7 @@ pub fn run(tier: &str) -> i32 {
     // channel equivalence: the direct channel used by the other properties and the
     // heartbeat channel give the same state
     channel_equivalence(&mut rep, if quick { 3 } else { 4 });
-    rep.rule = "in every state of the TREE profile (equal difficulty) every get_successors reply of <= k items over the item alphabet (valid children of tip / fork / anchor / previous item, the block of an announced header, a block whose parent is only an announced header, duplicates, the anchor, child of a stabilised block, orphan, empty / truncated / trailing bytes, bad proof of work, bad timestamps, wrong bits, no transactions, non-coinbase first, wrong merkle root, duplicated transaction) and every announced-header list of <= h entries is fed through the real heartbeat (candid-typed reply); admitted = longest admissible prefix, exactly one error counter +1, state equal to the state after the prefix-only reply".into();
+    rep.rule = "in every state of the TREE profile (equal difficulty) every get_successors reply of <= k items over the item alphabet (valid children of tip / fork / anchor / previous item, the block of an announced header, a block whose parent is only an announced header, a sibling of a tree block with the same transactions, duplicates, the anchor, child of a stabilised block, orphan, empty / truncated / trailing bytes, bad proof of work, bad timestamps, wrong bits, no transactions, non-coinbase first, wrong merkle root, duplicated transaction) and every announced-header list of <= h entries is fed through the real heartbeat (candid-typed reply); admitted = longest admissible prefix, exactly one error counter +1, state equal to the state after the prefix-only reply".into();
     rep.bounds = json!({"tier": tier});
     rep.assume("regtest (mined) blocks only: mainnet/testnet proof of work is not computable; header rules on those networks are C11's");
     rep.assume("bytes that the lenient decoder accepts with trailing data are counted as undecided");
